@@ -499,6 +499,19 @@ fn spellings(fs: &MFs, cwd: &str, target: &str, rng: &mut Rng) -> Vec<String> {
             }
         }
     }
+    // `linkdir/../name`: ".." after a link to a directory leads to the parent of the link's TARGET (the kernel
+    // resolves it physically), which is where `target` lives if that directory is a sibling of it
+    let tparent = parent(target);
+    let tname = target.rsplit('/').next().unwrap_or("").to_owned();
+    for (lp, n) in &fs.nodes {
+        if let MKind::Link(_) = n.kind {
+            if let Ok(dest) = fs.resolve("", lp, true) {
+                if !dest.is_empty() && dest != target && parent(&dest) == tparent && matches!(fs.nodes.get(&dest).map(|n| &n.kind), Some(MKind::Dir)) {
+                    out.push(format!("{}/../{}", rel(cwd, lp), tname));
+                }
+            }
+        }
+    }
     // decorations
     let base = rng.pick(&out).clone();
     let decorated = match rng.below(7) {
@@ -825,7 +838,7 @@ pub fn judge(s: &Scenario, r: &RunResult) -> (Vec<Violation>, Vec<&'static str>)
         vio.push(v(class, c));
         return (vio, probes);
     }
-    if r.exit == Exit::Code(2) {
+    if r.usage_error() {
         vio.push(v("usage-error", String::from_utf8_lossy(&r.stderr).lines().next().unwrap_or("").to_owned()));
         return (vio, probes);
     }
@@ -889,7 +902,7 @@ pub fn judge(s: &Scenario, r: &RunResult) -> (Vec<Violation>, Vec<&'static str>)
                 vio.push(v("unreadable-input-not-reported", format!("'{bad}' cannot be compiled (missing, not a Slice file, a directory given as source, inaccessible or undecodable) but no E001 names it; errors: {:?}", errors.iter().map(|d| d.message.clone()).collect::<Vec<_>>())));
             }
         }
-        if r.exit != Exit::Code(1) {
+        if r.exit == Exit::Code(0) {
             vio.push(v("io-error-without-failure", format!("exit {:?}", r.exit)));
         }
         if spawns > 0 {
